@@ -294,8 +294,8 @@ func linHistories(ps *propSink, count int, seed int64) string {
 		go func() { wg.Wait(); close(done) }()
 		select {
 		case <-done:
-		case <-time.After(5 * time.Second):
-			ps.add("C17", "concurrent history %d (seed %d) did not complete within 5 s", h, seed)
+		case <-time.After(25 * time.Second):
+			ps.add("C17", "concurrent history %d (seed %d) did not complete within 25 s", h, seed)
 			return fmt.Sprintf("histories=%d nonlinearizable=%d (stopped: hang)", h, bad)
 		}
 		var all []linOp
